@@ -137,6 +137,9 @@ func expandFuncName(short, pkg string) string {
 			star = "*"
 			recv = recv[1:]
 		}
+		if strings.HasPrefix(recv, "interface{") {
+			return short
+		}
 		if strings.Contains(recv, ".") && !strings.Contains(recv, "[") {
 			return short
 		}
